@@ -359,12 +359,13 @@ def pack_union(
                     f"if value.__class__ {packer_arg_type_check}:"
                 ):
                     lines.append(f"return {packer}")
-            elif not spec.builder.is_nailed and all(
+            elif all(
                 is_dataclass(get_type_origin(t))
                 for t in packer_arg_types[packer]
             ):
-                # a codec calls the packer of a particular dataclass,
-                # so it must only be applied to instances of this dataclass
+                # the packer of a dataclass member (a function bound to
+                # this class in codecs, a method call with the flags of this
+                # class in mixins) must only be applied to its instances
                 with lines.indent(
                     "if isinstance(value, "
                     f"({', '.join(packer_arg_type_names)},)):"
